@@ -56,4 +56,4 @@ Extraction "model.ml"
   run_delta_top run_patch_top mt_code
   m_gm m_glob_match m_glob_match_prefix m_is_excluded m_is_excluded_gm m_mm_insert m_build_plan m_needs_transfer
   m_parse_listing m_render_listing m_reconcile_path m_table m_fp_insert m_reconcile
-  OneWayExec.ow_exec OneWayExec.ow_tree_list ShellQuote.quoted_word ShellQuote.unquote_word ShellQuote.nul_list ShellQuote.xargs0.
+  OneWayExec.ow_exec OneWayExec.ow_tree_list OneWayExec.crash_exec ShellQuote.quoted_word ShellQuote.unquote_word ShellQuote.nul_list ShellQuote.xargs0.
